@@ -326,6 +326,13 @@ fn c10(seed: u64, tier: &str, thorough: bool) -> CheckPlan {
     for id in corpus_ids(derive(seed, "c10corpus", 0), if thorough { usize::MAX } else { 60 }) {
         jobs.push(job("C10", "clock", derive(seed, "c10corpus", 1), tier, json!({"script": id, "count": if thorough { 40 } else { 8 }})));
     }
+    // every documented function that takes a callback (the callbacks make a user call): the deadline lands inside the built-in
+    let (doc_calls, _, _) = crate::docsig::calls();
+    for (k, c) in doc_calls.iter().enumerate() {
+        if c.has_callback && (thorough || (k as u64 + seed) % 3 == 0) {
+            jobs.push(job("C10", "clock", derive(seed, "c10docclock", k as u64), tier, json!({"program": crate::docsig::program(&c.call), "label": format!("C10 clock {}", c.label), "count": if thorough { 60 } else { 8 }})));
+        }
+    }
     // (b) bounded liveness
     for (name, _) in crate::checks::c10::FIXED {
         jobs.push(job("C10", "fixed", seed, tier, json!({"name": name})));
